@@ -97,6 +97,7 @@ func profC12() *RevProfile {
 	p.PSrcFault = 40
 	p.CancelPct = 8 // completeness ("exactly one result per certificate") also under cancellation
 	p.HostileURL = 5
+	p.SoakPct = 6 // a caller that validates again after annotating the results it was handed (single schedule)
 	return p
 }
 
